@@ -195,6 +195,12 @@ class EventSeriesClimateNetwork(EventSeries, ClimateNetwork):
                                 threshold=0, directed=self.directed,
                                 **CN_kwargs)
 
+    def __cache_state__(self):
+        #  the network part is initialised after the event series part
+        if not hasattr(self, "_mut_clim"):
+            return EventSeries.__cache_state__(self)
+        return ClimateNetwork.__cache_state__(self)
+
     def __str__(self):
         """
         Return a string representation of EventSeriesClimateNetwork.
